@@ -905,3 +905,431 @@ pub fn generate_query_stream(rng: &mut Rng, n: usize, _tier: &str, out: &mut dyn
         }
     }
 }
+
+// ---------------------------------------------------------------- update statements (C12)
+
+#[derive(Clone, Debug)]
+pub enum SetItem {
+    Prop(String, String, Expr),
+    MapReplace(String, Vec<(String, Expr)>),
+    MapMerge(String, Vec<(String, Expr)>),
+    Labels(String, Vec<String>),
+}
+
+#[derive(Clone, Debug)]
+pub enum RemItem {
+    Prop(String, String),
+    Labels(String, Vec<String>),
+}
+
+#[derive(Clone, Debug)]
+pub enum UClause {
+    Create(Vec<PathPat>),
+    Set(Vec<SetItem>),
+    Remove(Vec<RemItem>),
+    Delete(bool, Vec<String>),
+    Merge(PathPat, Vec<SetItem>, Vec<SetItem>),
+}
+
+fn map_text(m: &[(String, Expr)]) -> String {
+    format!("{{{}}}", m.iter().map(|(k, v)| format!("{}: {}", k, expr_text(v))).collect::<Vec<_>>().join(", "))
+}
+
+fn set_items_text(items: &[SetItem]) -> String {
+    items
+        .iter()
+        .map(|it| match it {
+            SetItem::Prop(x, k, e) => format!("{}.{} = {}", x, k, expr_text(e)),
+            SetItem::MapReplace(x, m) => format!("{} = {}", x, map_text(m)),
+            SetItem::MapMerge(x, m) => format!("{} += {}", x, map_text(m)),
+            SetItem::Labels(x, ls) => format!("{}{}", x, ls.iter().map(|l| format!(":{}", l)).collect::<String>()),
+        })
+        .collect::<Vec<_>>()
+        .join(", ")
+}
+
+pub fn uclause_text(u: &UClause) -> String {
+    match u {
+        UClause::Create(ps) => format!("CREATE {}", ps.iter().map(path_text).collect::<Vec<_>>().join(", ")),
+        UClause::Set(items) => format!("SET {}", set_items_text(items)),
+        UClause::Remove(items) => format!(
+            "REMOVE {}",
+            items
+                .iter()
+                .map(|it| match it {
+                    RemItem::Prop(x, k) => format!("{}.{}", x, k),
+                    RemItem::Labels(x, ls) => format!("{}{}", x, ls.iter().map(|l| format!(":{}", l)).collect::<String>()),
+                })
+                .collect::<Vec<_>>()
+                .join(", ")
+        ),
+        UClause::Delete(d, vs) => format!("{}DELETE {}", if *d { "DETACH " } else { "" }, vs.join(", ")),
+        UClause::Merge(p, oc, om) => format!(
+            "MERGE {}{}{}",
+            path_text(p),
+            if oc.is_empty() { String::new() } else { format!(" ON CREATE SET {}", set_items_text(oc)) },
+            if om.is_empty() { String::new() } else { format!(" ON MATCH SET {}", set_items_text(om)) }
+        ),
+    }
+}
+
+fn map_sx(m: &[(String, Expr)]) -> String {
+    m.iter().map(|(k, v)| format!(" ({} {})", k, expr_sx(v))).collect::<String>()
+}
+
+fn set_items_sx(items: &[SetItem]) -> String {
+    items
+        .iter()
+        .map(|it| match it {
+            SetItem::Prop(x, k, e) => format!(" (sprop {} {} {})", x, k, expr_sx(e)),
+            SetItem::MapReplace(x, m) => format!(" (smap {}{})", x, map_sx(m)),
+            SetItem::MapMerge(x, m) => format!(" (smerge {}{})", x, map_sx(m)),
+            SetItem::Labels(x, ls) => format!(" (slabels {}{})", x, ls.iter().map(|l| format!(" {}", l)).collect::<String>()),
+        })
+        .collect::<String>()
+}
+
+pub fn uclause_sx(u: &UClause) -> String {
+    match u {
+        UClause::Create(ps) => format!("(create{})", ps.iter().map(|p| format!(" {}", path_sx(p))).collect::<String>()),
+        UClause::Set(items) => format!("(set{})", set_items_sx(items)),
+        UClause::Remove(items) => format!(
+            "(remove{})",
+            items
+                .iter()
+                .map(|it| match it {
+                    RemItem::Prop(x, k) => format!(" (rprop {} {})", x, k),
+                    RemItem::Labels(x, ls) => format!(" (rlabels {}{})", x, ls.iter().map(|l| format!(" {}", l)).collect::<String>()),
+                })
+                .collect::<String>()
+        ),
+        UClause::Delete(d, vs) => format!("(delete {}{})", *d as u8, vs.iter().map(|v| format!(" {}", v)).collect::<String>()),
+        UClause::Merge(p, oc, om) => {
+            format!("(merge {} (oncreate{}) (onmatch{}))", path_sx(p), set_items_sx(oc), set_items_sx(om))
+        }
+    }
+}
+
+pub fn stmt_text(reads: &[Clause], ups: &[UClause]) -> String {
+    let mut parts: Vec<String> = reads.iter().map(clause_text).collect();
+    parts.extend(ups.iter().map(uclause_text));
+    parts.join(" ")
+}
+
+pub fn stmt_sx(reads: &[Clause], ups: &[UClause]) -> String {
+    format!(
+        "(stmt (reads{}) (updates{}))",
+        reads.iter().map(|c| format!(" {}", clause_sx(c))).collect::<String>(),
+        ups.iter().map(|u| format!(" {}", uclause_sx(u))).collect::<String>()
+    )
+}
+
+/// fixed parameters of the update stream: $p0 int, $p1 string, $p2 null
+pub const PARAMS: &str = "p0=i7,p1=s:p,p2=z";
+
+impl<'a> Gen<'a> {
+    /// a storable scalar value expression: literal, parameter, null, or (reads only) a property of a bound variable
+    fn value_expr(&mut self, sc: &Scope, key: &str) -> Expr {
+        let r = self.rng.below(12);
+        match (key, r) {
+            (_, 0) => Expr::Lit(Lit::Null),
+            (_, 1) => Expr::Param("p2".into()),
+            ("s", 2) => Expr::Param("p1".into()),
+            ("s", _) => self.str_lit(),
+            ("b", _) => Expr::Lit(Lit::Bool(self.rng.chance(1, 2))),
+            (_, 2) => Expr::Param("p0".into()),
+            (_, 3) | (_, 4) => {
+                let xs = sc.of(Ty::Int);
+                if xs.is_empty() { self.int_lit() } else { Expr::Var(self.rng.pick(&xs).clone()) }
+            }
+            _ => self.int_lit(),
+        }
+    }
+
+    fn prop_key(&mut self) -> &'static str {
+        *self.rng.pick(&["k", "k", "s", "b", "j"])
+    }
+
+    fn map_lit(&mut self, sc: &Scope) -> Vec<(String, Expr)> {
+        let n = self.rng.below(3);
+        let mut m: Vec<(String, Expr)> = vec![];
+        for _ in 0..n {
+            let k = self.prop_key();
+            if m.iter().any(|(x, _)| x == k) {
+                continue;
+            }
+            let v = self.value_expr(sc, k);
+            m.push((k.to_string(), v));
+        }
+        m
+    }
+
+    fn set_items(&mut self, sc: &Scope, targets: &[String], allow_labels: bool) -> Vec<SetItem> {
+        let n = self.rng.range(1, 2);
+        let mut items = vec![];
+        for _ in 0..n {
+            let x = self.rng.pick(targets).clone();
+            let is_node = sc.vars.iter().any(|(v, t)| *v == x && *t == Ty::Node);
+            match self.rng.below(10) {
+                0..=4 => {
+                    let k = if is_node { self.prop_key() } else { *self.rng.pick(&["w", "w", "j"]) };
+                    let v = self.value_expr(sc, k);
+                    items.push(SetItem::Prop(x, k.to_string(), v));
+                }
+                5 | 6 => items.push(SetItem::MapMerge(x, self.map_lit(sc))),
+                7 => items.push(SetItem::MapReplace(x, self.map_lit(sc))),
+                _ if is_node && allow_labels => {
+                    let mut ls = vec![self.rng.pick(&["A", "B", "C"]).to_string()];
+                    if self.rng.chance(1, 4) {
+                        let l2 = self.rng.pick(&["A", "B", "C"]).to_string();
+                        if !ls.contains(&l2) {
+                            ls.push(l2);
+                        }
+                    }
+                    items.push(SetItem::Labels(x, ls));
+                }
+                _ => {
+                    let k = if is_node { "k" } else { "w" };
+                    items.push(SetItem::Prop(x, k.to_string(), self.int_lit()));
+                }
+            }
+        }
+        items
+    }
+
+    /// read prefix binding some node / relationship variables; returns (clauses, scope)
+    fn update_prefix(&mut self) -> (Vec<Clause>, Scope) {
+        let mut sc = Scope::default();
+        let mut q = vec![];
+        match self.rng.below(10) {
+            0 | 1 => {
+                // UNWIND literal list
+                let n = self.rng.range(1, 3);
+                let xs: Vec<Lit> = (0..n).map(|_| Lit::Int(*self.rng.pick(&[0, 1, 1, 2]))).collect();
+                let v = sc.fresh("x");
+                sc.vars.push((v.clone(), Ty::Int));
+                q.push(Clause::Unwind(Expr::List(xs), v));
+            }
+            2 => {}
+            3..=5 => {
+                let mut local = vec![];
+                let v = sc.fresh("n");
+                local.push((v.clone(), Ty::Node));
+                let mut np = NodePat { var: Some(v), ..Default::default() };
+                if self.rng.chance(1, 3) {
+                    np.labels.push(self.rng.pick(LABELS).to_string());
+                }
+                sc.vars.extend(local);
+                q.push(Clause::Match(false, vec![PathPat { start: np, steps: vec![] }]));
+                if self.rng.chance(1, 3) {
+                    q.push(Clause::Where(self.bool_expr(&sc, 1)));
+                }
+            }
+            6 | 7 => {
+                let a = sc.fresh("n");
+                let r = sc.fresh("r");
+                let b = sc.fresh("n");
+                sc.vars.push((a.clone(), Ty::Node));
+                sc.vars.push((r.clone(), Ty::Rel));
+                sc.vars.push((b.clone(), Ty::Node));
+                let types = if self.rng.chance(1, 2) { vec![] } else { vec![self.rng.pick(TYPES).to_string()] };
+                q.push(Clause::Match(
+                    false,
+                    vec![PathPat {
+                        start: NodePat { var: Some(a), ..Default::default() },
+                        steps: vec![(
+                            RelPat { var: Some(r), types, dir: *self.rng.pick(&["out", "out", "in"]), props: vec![] },
+                            NodePat { var: Some(b), ..Default::default() },
+                        )],
+                    }],
+                ));
+                if self.rng.chance(1, 4) {
+                    q.push(Clause::Where(self.bool_expr(&sc, 1)));
+                }
+            }
+            8 => {
+                // two independent nodes (for CREATE / MERGE of a relationship between bound nodes)
+                let a = sc.fresh("n");
+                let b = sc.fresh("n");
+                sc.vars.push((a.clone(), Ty::Node));
+                sc.vars.push((b.clone(), Ty::Node));
+                let mut pa = NodePat { var: Some(a), ..Default::default() };
+                let mut pb = NodePat { var: Some(b), ..Default::default() };
+                if self.rng.chance(1, 2) {
+                    pa.labels.push("A".into());
+                }
+                if self.rng.chance(1, 2) {
+                    pb.labels.push("B".into());
+                }
+                q.push(Clause::Match(false, vec![PathPat { start: pa, steps: vec![] }, PathPat { start: pb, steps: vec![] }]));
+            }
+            _ => {
+                // a null-able variable
+                let a = sc.fresh("n");
+                let r = sc.fresh("r");
+                let b = sc.fresh("n");
+                sc.vars.push((a.clone(), Ty::Node));
+                q.push(Clause::Match(false, vec![PathPat { start: NodePat { var: Some(a.clone()), ..Default::default() }, steps: vec![] }]));
+                sc.vars.push((r.clone(), Ty::Rel));
+                sc.vars.push((b.clone(), Ty::Node));
+                q.push(Clause::Match(
+                    true,
+                    vec![PathPat {
+                        start: NodePat { var: Some(a), ..Default::default() },
+                        steps: vec![(RelPat { var: Some(r), types: vec![], dir: "out", props: vec![] }, NodePat { var: Some(b), ..Default::default() })],
+                    }],
+                ));
+            }
+        }
+        (q, sc)
+    }
+
+    fn create_node_pat(&mut self, sc: &mut Scope, named: bool) -> NodePat {
+        let mut np = NodePat::default();
+        if named {
+            let v = sc.fresh("c");
+            sc.vars.push((v.clone(), Ty::Node));
+            np.var = Some(v);
+        }
+        for l in ["A", "B"] {
+            if self.rng.chance(2, 5) {
+                np.labels.push(l.to_string());
+            }
+        }
+        let m = self.map_lit(sc);
+        np.props = m;
+        np
+    }
+
+    pub fn update_stmt(&mut self) -> (Vec<Clause>, Vec<UClause>) {
+        let (reads, mut sc) = self.update_prefix();
+        let nodes = sc.of(Ty::Node);
+        let rels = sc.of(Ty::Rel);
+        let mut targets: Vec<String> = nodes.clone();
+        targets.extend(rels.clone());
+        let kind = self.rng.below(12);
+        let u = match kind {
+            0..=2 => {
+                // CREATE
+                if nodes.len() >= 2 && self.rng.chance(2, 3) {
+                    let a = nodes[0].clone();
+                    let b = nodes[nodes.len() - 1].clone();
+                    let rv = if self.rng.chance(1, 2) { Some(sc.fresh("e")) } else { None };
+                    let props = if self.rng.chance(1, 2) { vec![("w".to_string(), self.value_expr(&sc, "w"))] } else { vec![] };
+                    UClause::Create(vec![PathPat {
+                        start: NodePat { var: Some(a), ..Default::default() },
+                        steps: vec![(
+                            RelPat { var: rv, types: vec![self.rng.pick(TYPES).to_string()], dir: *self.rng.pick(&["out", "in"]), props },
+                            NodePat { var: Some(b), ..Default::default() },
+                        )],
+                    }])
+                } else if self.rng.chance(1, 2) {
+                    let named = self.rng.chance(1, 2);
+                    UClause::Create(vec![PathPat { start: self.create_node_pat(&mut sc, named), steps: vec![] }])
+                } else {
+                    let named = self.rng.chance(1, 2);
+                    let start = if !nodes.is_empty() && self.rng.chance(1, 2) {
+                        NodePat { var: Some(nodes[0].clone()), ..Default::default() }
+                    } else {
+                        self.create_node_pat(&mut sc, named)
+                    };
+                    let end = self.create_node_pat(&mut sc, false);
+                    let props = if self.rng.chance(1, 3) { vec![("w".to_string(), self.value_expr(&sc, "w"))] } else { vec![] };
+                    UClause::Create(vec![PathPat {
+                        start,
+                        steps: vec![(RelPat { var: None, types: vec![self.rng.pick(TYPES).to_string()], dir: *self.rng.pick(&["out", "in"]), props }, end)],
+                    }])
+                }
+            }
+            3..=5 if !targets.is_empty() => UClause::Set(self.set_items(&sc, &targets, true)),
+            6 if !targets.is_empty() => {
+                let n = self.rng.range(1, 2);
+                let mut items = vec![];
+                for _ in 0..n {
+                    let x = self.rng.pick(&targets).clone();
+                    let is_node = nodes.contains(&x);
+                    if is_node && self.rng.chance(1, 3) {
+                        items.push(RemItem::Labels(x, vec![self.rng.pick(&["A", "B", "C", "Z"]).to_string()]));
+                    } else {
+                        items.push(RemItem::Prop(x, if is_node { self.prop_key().to_string() } else { "w".to_string() }));
+                    }
+                }
+                UClause::Remove(items)
+            }
+            7 | 8 if !targets.is_empty() => {
+                let detach = self.rng.chance(1, 2);
+                let mut vs = vec![self.rng.pick(&targets).clone()];
+                if self.rng.chance(1, 3) {
+                    let v2 = self.rng.pick(&targets).clone();
+                    if !vs.contains(&v2) {
+                        vs.push(v2);
+                    }
+                }
+                UClause::Delete(detach, vs)
+            }
+            _ => {
+                // MERGE: single node, or a relationship between (mostly) bound nodes
+                if nodes.len() >= 2 && self.rng.chance(2, 3) {
+                    let a = nodes[0].clone();
+                    let b = nodes[nodes.len() - 1].clone();
+                    let rv = sc.fresh("m");
+                    sc.vars.push((rv.clone(), Ty::Rel));
+                    let props = if self.rng.chance(1, 4) { vec![("w".to_string(), self.int_lit())] } else { vec![] };
+                    let pat = PathPat {
+                        start: NodePat { var: Some(a), ..Default::default() },
+                        steps: vec![(
+                            RelPat { var: Some(rv.clone()), types: vec![self.rng.pick(TYPES).to_string()], dir: *self.rng.pick(&["out", "out", "in", "both"]), props },
+                            NodePat { var: Some(b), ..Default::default() },
+                        )],
+                    };
+                    let oc = if self.rng.chance(1, 3) { vec![SetItem::Prop(rv.clone(), "w".into(), self.int_lit())] } else { vec![] };
+                    let om = if self.rng.chance(1, 3) { vec![SetItem::Prop(rv, "j".into(), self.int_lit())] } else { vec![] };
+                    UClause::Merge(pat, oc, om)
+                } else {
+                    let v = sc.fresh("m");
+                    sc.vars.push((v.clone(), Ty::Node));
+                    let mut np = NodePat { var: Some(v.clone()), ..Default::default() };
+                    if self.rng.chance(2, 3) {
+                        np.labels.push(self.rng.pick(&["A", "B", "C"]).to_string());
+                    }
+                    if self.rng.chance(2, 3) {
+                        let k = *self.rng.pick(&["k", "s"]);
+                        let xs = sc.of(Ty::Int);
+                        let val = if k == "k" && !xs.is_empty() && self.rng.chance(1, 2) {
+                            Expr::Var(xs[0].clone())
+                        } else if k == "k" {
+                            self.int_lit()
+                        } else {
+                            self.str_lit()
+                        };
+                        np.props.push((k.to_string(), val));
+                    }
+                    let oc = if self.rng.chance(1, 3) { vec![SetItem::Prop(v.clone(), "j".into(), self.int_lit())] } else { vec![] };
+                    let om = if self.rng.chance(1, 3) { vec![SetItem::Prop(v, "j".into(), Expr::Lit(Lit::Int(9)))] } else { vec![] };
+                    UClause::Merge(PathPat { start: np, steps: vec![] }, oc, om)
+                }
+            }
+        };
+        (reads, vec![u])
+    }
+}
+
+pub fn generate_update_stream(rng: &mut Rng, n: usize, _tier: &str, out: &mut dyn Write) {
+    let mut case = 0;
+    let mut emitted = 0;
+    while emitted < n {
+        case += 1;
+        writeln!(out, "#case u{}", case).unwrap();
+        gen_graph(rng, out);
+        writeln!(out, "dump").unwrap();
+        let k = 6;
+        for _ in 0..k {
+            let (reads, ups) = Gen { rng, params: true }.update_stmt();
+            let text = esc(&stmt_text(&reads, &ups));
+            let sx = stmt_sx(&reads, &ups);
+            writeln!(out, "update {} {} {}", PARAMS, text, sx).unwrap();
+            writeln!(out, "dump").unwrap();
+            emitted += 1;
+        }
+    }
+}
